@@ -194,7 +194,9 @@ pub fn history_case(ch: &mut Chooser, t: &mut Tally) {
         Ok(()) => t.outcome("ok"),
         Err((kind, detail)) => {
             t.outcome(&kind);
-            t.fail("c02.history", &kind, ch.deviations(), format!("{:?}: {}", descr, detail), ch.replay_value("c02.history"));
+            let mut rv = ch.replay_value("c02.history");
+            rv["n_objects"] = json!(nobj);
+            t.fail("c02.history", &kind, ch.deviations(), format!("{:?}: {}", descr, detail), rv);
         }
     }
 }
@@ -227,15 +229,6 @@ pub fn run(tier: Tier, _seed: u64, tally: &mut Tally) -> CheckMeta {
 
 pub fn replay(case: &Value, tally: &mut Tally) {
     let picks: Vec<u32> = case["picks"].as_array().map(|a| a.iter().map(|x| x.as_u64().unwrap() as u32).collect()).unwrap_or_default();
-    // the number of objects is part of the shape of the pick vector: try the quick shape first, then thorough
-    for n in [2usize, 3] {
-        N_OBJECTS.store(n, Ordering::Relaxed);
-        let mut t = Tally::new();
-        let ch = run_one(&picks, &mut t, history_case);
-        if ch.diverged.is_none() && ch.trace.len() == picks.len() {
-            tally.merge(t);
-            return;
-        }
-    }
-    println!("replay: pick vector does not match any tier shape");
+    N_OBJECTS.store(case["n_objects"].as_u64().unwrap_or(2) as usize, Ordering::Relaxed);
+    run_one(&picks, tally, history_case);
 }
